@@ -110,6 +110,12 @@ def render(c):
         return _program('for (%s x = %s; t; ) { }' % (tgt, s[0])), None
     if pos == 'nesteddecl':
         return _program('if (t) { } else { while (t) { %s x = %s; } }' % (tgt, s[0])), None
+    if pos == 'trydecl':
+        return _program('try { %s x = %s; } undo { %s y = %s; }' % (tgt, s[0], tgt, s[0]), name='@g'), None
+    if pos == 'deadcode':
+        return _program('return; %s x = %s;' % (tgt, s[0])), None
+    if pos == 'sleep':
+        return _program('sleep(%s);' % s[0]), None
     if pos == 'forstep':
         return _program('for (; t; %s %s= %s) { }' % (s[0], tgt, s[1])), None
     if pos == 'gdecl':
